@@ -139,8 +139,12 @@ def make_program(case, ctx, log):
                 elif handler == "return":
                     return
                 elif handler == "yield-again":
-                    yield "HANDLER-VALUE"
-                    log.append(("resumed-after-handler-yield",))
+                    try:
+                        yield "HANDLER-VALUE"
+                        log.append(("resumed-after-handler-yield",))
+                    except BaseException as exc2:  # noqa: B902
+                        log.append(("thrown-at-second-yield", type(exc2).__name__))
+                        raise
                 elif handler == "raise-StopAsyncIteration":
                     raise StopAsyncIteration("handler")
                 elif handler == "raise-StopIteration":
@@ -154,8 +158,12 @@ def make_program(case, ctx, log):
         await pause("after")
         await tail()
         if after == "yield-again":
-            yield "SECOND-VALUE"
-            log.append(("resumed-after-second-yield",))
+            try:
+                yield "SECOND-VALUE"
+                log.append(("resumed-after-second-yield",))
+            except BaseException as exc2:  # noqa: B902
+                log.append(("thrown-at-second-yield", type(exc2).__name__))
+                raise
 
     return program
 
@@ -241,6 +249,8 @@ async def deviation_model(program, case, log):
 def norm_log(log, block):
     out = []
     for e in log:
+        if e[0] == "thrown-at-second-yield":
+            continue  # contextlib closes a generator that did not stop, asyncstdlib leaves that to its owner
         if e[0] == "thrown" and e[1] == "GeneratorExit" and block != "GeneratorExit":
             continue  # cleanup close of a generator that did not stop: not a resume/throw of the protocol
         if e[0] == "finally" and block != "GeneratorExit":
@@ -263,6 +273,12 @@ def run_side(case, which):
         outcome = run(ctx, coro)
         result = expect_return(outcome, "C13/program")
         if which == "a":
+            # "resumes or throws into the generator exactly once": counted when the use is over, BEFORE the loop's
+            # own finalizer gets to close a generator that was left suspended (that close is not the library's)
+            contacts = [e for e in log if e[0] in ("resumed", "thrown", "resumed-after-handler-yield",
+                                                   "resumed-after-second-yield", "thrown-at-second-yield")]
+            if len(contacts) > 1 and case["block"] != "GeneratorExit":  # (aclose() is the interpreter's business)
+                raise Violation("C13/generator-contacted-more-than-once", f"{describe(case)}: {contacts}")
             # every suspension of the user's generator is driven by the loop (C17): the library neither answers a
             # token itself nor lets one go unseen
             errs = ctx.protocol_errors()
